@@ -91,7 +91,9 @@ LEVEL_TEXT = (
     "kind + settings - i.e. does not read __orig_class__ - and whose operators depend on their providers only through "
     "the values returned, the reloaded specification has the same root, the same classes in the same order and `eval` "
     "returns the same table for every fuel, class and size; more generally any two specifications of the same "
-    "structure do (C18_same_structure_same_enumeration), and every per-rule observable that does not read "
+    "structure do (C18_same_structure_same_enumeration); composed with C01's conclusion: if the original evaluates a class to "
+    "the true table at every size (what C01_spec_correct / _constructors / the forest pipeline conclude), so does the reloaded "
+    "object, with the same budgets (C18_roundtrip_still_correct, applied); and every per-rule observable that does not read "
     "__orig_class__ (get_equation, formal_step ..) has the same value class by class "
     "(C18_roundtrip_same_rule_observables). Applied examples also cover a StrategyFactory class (no flags written) and "
     "the AtomStrategy, alone, in a pack with two configurations of the factory, in a rule and in a specification. "
